@@ -10,6 +10,8 @@
        SameType         kind and type tag of the result and of every copied holder on the path are kept
        OrigUnchanged    every node reachable from the receiver before the call has the same contents after it
        OnlyPathChanged  Val(result) = Subst(Val(receiver), path, Val(value))
+   Calls with create_new_ok=True whose last step is a dict key / attribute that does not exist yet are part of the claim
+   (Subst adds the slot; the ORIGINAL must not gain it: dict key sets are part of every node's contents).
    and keeps the set of held roots as spec state (a later call may be made on an earlier result, and every
    earlier result must stay unchanged as well).  Verdicts are total: first failing clause per case.        *)
 EXTENDS Integers, Sequences, FiniteSets, TLC, TLCExt, Json, IOUtils
@@ -37,15 +39,24 @@ Malformed(c, e) ==
     IF ~(HeapOK(e.h0, c.n) /\ HeapOK(e.h1, c.n)) THEN "malformed: heap snapshot"
     ELSE IF ~(e.old \in held /\ e.v \in 1..c.n) THEN "malformed: receiver is not a held root"
     ELSE IF ~H!Allocated(e.h0, H!Reach(e.h0, e.old) \cup H!Reach(e.h0, e.v)) THEN "malformed: dangling node in before-snapshot"
-    ELSE IF ~(IF e.create_new THEN H!ValidPathNew(e.h0, e.old, e.path) ELSE H!ValidPath(e.h0, e.old, e.path))
+    ELSE IF ~e.invalid /\ ~(IF e.create_new THEN H!ValidPathNew(e.h0, e.old, e.path) ELSE H!ValidPath(e.h0, e.old, e.path))
          THEN "malformed: path does not address a slot of the receiver"
+    ELSE IF e.invalid /\ (IF e.create_new THEN H!ValidPathNew(e.h0, e.old, e.path) ELSE H!ValidPath(e.h0, e.old, e.path))
+         THEN "malformed: path announced as invalid addresses a slot"
     ELSE IF ~e.raised /\ ~(e.new \in 1..c.n /\ H!Allocated(e.h1, H!Reach(e.h1, e.new))) THEN "malformed: result not in after-snapshot"
     ELSE ""
 
 CallVerdict(c, e) ==
     LET m == Malformed(c, e) IN
     IF m # "" THEN m
-    ELSE IF e.raised THEN "returned: aset raised on a path that addresses an existing slot"
+    \* a path THROUGH a slot that does not exist (or to a missing slot without create_new_ok) is an error of the caller:
+    \* aset may raise, but "leaves the original object unchanged" still holds (a failed lookup must not insert anything)
+    ELSE IF e.invalid THEN
+            IF ~H!OrigUnchanged(e.h0, e.h1, e.old) THEN "original: the receiver's object graph was modified"
+            ELSE IF ~(\A r \in held : H!OrigUnchanged(e.h0, e.h1, r)) THEN "held: an earlier result was modified"
+            ELSE IF ~e.raised THEN "model: aset accepted a path through a slot that does not exist"
+            ELSE ""
+    ELSE IF e.raised THEN "returned: aset raised on a path that addresses a slot (existing, or creatable with create_new_ok)"
     ELSE IF ~H!SameType(e.h0, e.h1, e.old, e.new, e.path) THEN "same type: a copied node changed kind or type tag"
     ELSE IF ~H!OrigUnchanged(e.h0, e.h1, e.old) THEN "original: the receiver's object graph was modified"
     ELSE IF ~H!OnlyPathChanged(e.h0, e.h1, e.old, e.new, e.path, e.v) THEN "only path: result is not receiver[path := value]"
